@@ -277,9 +277,11 @@ impl Builder {
         match bk.family() {
             1 | 3 => PwParams::Iter(*self.rng.pick(&[1u32, 1, 2, 3, 10, 100, 1000])),
             _ => {
-                let mem = *self.rng.pick(&[8u64, 8, 9, 16, 64, 1024]) * 1024;
                 let time = *self.rng.pick(&[1u32, 1, 2, 3]);
-                PwParams::Argon(mem, time, 1)
+                // libsodium computes one lane only; the RustCrypto backends any number
+                let para = if bk == Bk::V4Na { 1 } else { *self.rng.pick(&[1u32, 1, 1, 2, 3, 4]) };
+                let mem = *self.rng.pick(&[8u64, 8, 9, 16, 64, 1024]) * 1024 * para as u64;
+                PwParams::Argon(mem, time, para)
             }
         }
     }
